@@ -122,9 +122,11 @@ class Session:
     def close(self):
         self.impl.close()
 
-    def call(self, req, gate=EXACT, tag=""):
+    def call(self, req, gate=EXACT, tag="", model=True):
+        """execute on the real code; `model=False` keeps the request out of the model comparison
+        (implementation-level oracle only: used where the model's list-based maps would be too slow)"""
         raw = self.impl.call(req)
-        self.records.append((req, raw, gate, tag))
+        self.records.append((req, raw, gate if model else "skip", tag))
         r = Resp(raw)
         if r.kind in ("bad-op", "bad-line", "bad-suite"):
             raise RuntimeError("harness rejected request: %s -> %s" % (req[:300], raw))
@@ -167,7 +169,7 @@ MODEL_SUITES = set(TOY_SUITES)
 def compare_with_model(records):
     """Pipe every model-supported request through the Lean driver and compare.
     Returns (n_compared, disagreements[list of dict], nongating[list])."""
-    idx = [i for i, r in enumerate(records) if model_supported(r[0])]
+    idx = [i for i, r in enumerate(records) if model_supported(r[0]) and r[2] != "skip"]
     if not idx:
         return 0, [], []
     outs = batch([DRIVER_BIN], [records[i][0] for i in idx])
